@@ -76,7 +76,7 @@ func (c *Call) setReply(ch chan struct{}) { c.reply = ch }
 
 func (c *Call) IsWrite() bool {
 	switch c.Verb {
-	case "create", "update", "updatestatus", "patch", "delete":
+	case "create", "update", "updatestatus", "patch", "patchstatus", "delete":
 		return true
 	}
 	return false
@@ -534,6 +534,9 @@ func (s *Sim) exec(c *Call) {
 	case "patch":
 		c.Pre, _ = st.Get(c.Kind, c.NS, c.Name)
 		c.Out, c.Err = st.Patch(c.Kind, c.NS, c.Name, c.Patch)
+	case "patchstatus":
+		c.Pre, _ = st.Get(c.Kind, c.NS, c.Name)
+		c.Out, c.Err = st.PatchStatus(c.Kind, c.NS, c.Name, c.Patch)
 	case "delete":
 		c.Pre, _ = st.Get(c.Kind, c.NS, c.Name)
 		c.Err = st.Delete(c.Kind, c.NS, c.Name)
